@@ -494,6 +494,9 @@ fn process_tags(
     let remain = &mut Vec::new();
 
     while !tags.is_empty() && remain.len() != tags.len() {
+        // Number of resolved elements once the first failure of this pass was seen:
+        // retrying is only useful if something else has been resolved since then.
+        let mut resolved_at_first_failure = None;
         for (idx, t) in &mut tags.iter_mut() {
             let idx = idx.clone();
             let el = if let Some(el) = t.get_element() {
@@ -511,6 +514,9 @@ fn process_tags(
                 // We do still call generate_events for side-effects including registering
                 // elements for reuse.
                 if let Ok((events, maybe_bbox)) = gen_result {
+                    if el.is_some() {
+                        context.note_resolved(&idx);
+                    }
                     if let Some(bbox) = maybe_bbox {
                         bbb.extend(bbox); // TODO: should this pattern take an Option?
                     }
@@ -537,10 +543,16 @@ fn process_tags(
                         }
                     }
                     remain.push((idx, t.clone()));
+                    resolved_at_first_failure.get_or_insert(context.resolved_count());
                 }
             }
         }
-        if tags.len() == remain.len() {
+        // No progress: either nothing in this pass succeeded, or nothing which could
+        // help the failed elements has been resolved since the first of them failed.
+        // (Without the latter check every level of nesting would repeat the work of
+        // all the levels below it, doubling the total for each level.)
+        if tags.len() == remain.len() || resolved_at_first_failure == Some(context.resolved_count())
+        {
             return Err(SvgdxError::MultiError(element_errors));
         }
 
